@@ -1,21 +1,21 @@
 (* SignedModel.v — executable model of
      include/parmcb/detail/signed_dijkstra.hpp  (search_frontier, bidirectional_signed_dijkstra)
-     include/parmcb/parmcb_sva_signed.hpp       (mcb_sva_signed)
+     include/parmcb/parmcb_sva_signed.hpp       (mcb_sva_signed, on top of SvaModel.v)
    generic in the weight type (instantiated with Z for the exact domain and with binary64 for C09).
    Definitions only.
 
    Signed vertices (v, sign) are numbered v + (if sign then 0 else n), as SignedDistanceFunctor does.
-   Oracles: `roots` (ForestModel), `eord` — a ranking of the edge ids standing for the pointer order in
-   which std::set<Edge> iterates — and `choose`, which resolves ties between equal keys in the 4-ary
-   heap (given the tied entries in heap order, the position to pop). *)
-From Parmcb Require Export GraphModel ForestModel GF2Model.
+   The 4-ary indirect heap is modelled exactly (HeapModel.v), so a run is deterministic once the oracles
+   `roots` (ForestModel) and `eord` are fixed; `eord` is a ranking of the edge ids standing for the
+   pointer order in which std::set<Edge> iterates the signed edges in the hidden-edge heuristic. *)
+From Parmcb Require Export GraphModel ForestModel GF2Model HeapModel SvaModel.
+
 
 Section Signed.
   Variable W : Type.
   Variable w0 : W.
   Variable wadd : W -> W -> W.
   Variable wltb : W -> W -> bool.           (* std::less *)
-  Variable choose : list nat -> nat.
 
   Definition wtof (wts : list W) (e : nat) : W := nth e wts w0.
 
@@ -24,7 +24,7 @@ Section Signed.
     f_src : nat;
     f_dist : list (option W);                (* Some for the source and for visited entries *)
     f_pred : list (option (nat * nat));      (* (predecessor signed vertex, edge) ; None = not visited *)
-    f_heap : list nat                        (* content of the queue, in insertion order *)
+    f_heap : list nat                        (* the heap array of the queue *)
   }.
 
   Definition fr_init (n : nat) (s : nat) : frontier :=
@@ -37,54 +37,45 @@ Section Signed.
   Definition has_finite_dist (f : frontier) (u : nat) : bool :=
     Nat.eqb u (f_src f) || match nth u (f_pred f) None with Some _ => true | None => false end.
 
-  (* frontier.update(w, c, pred, e) *)
-  Definition fr_update (f : frontier) (w : nat) (c : W) (p e : nat) : frontier :=
-    if Nat.eqb w (f_src f) then f
+  (* keys as the heap reads them; an unset distance is numeric_limits::max (never the strict minimum) *)
+  Definition klt (a b : option W) : bool :=
+    match a, b with Some x, Some y => wltb x y | Some _, None => true | None, _ => false end.
+  Definition fkey (dist : list (option W)) (u : nat) : option W := nth u dist None.
+
+  (* frontier.update(w, c, pred, e); None = queue.update on a vertex that is not in the queue *)
+  Definition fr_update (f : frontier) (w : nat) (c : W) (p e : nat) : option frontier :=
+    if Nat.eqb w (f_src f) then Some f
     else match nth w (f_pred f) None with
          | None =>                         (* first time found *)
-             {| f_src := f_src f; f_dist := set_nth (f_dist f) w (Some c);
-                f_pred := set_nth (f_pred f) w (Some (p, e)); f_heap := f_heap f ++ [w] |}
+             let d' := set_nth (f_dist f) w (Some c) in
+             Some {| f_src := f_src f; f_dist := d';
+                     f_pred := set_nth (f_pred f) w (Some (p, e));
+                     f_heap := heap_push (option W) klt (fkey d') (f_heap f) w |}
          | Some _ =>
              match fr_dist f w with
              | Some dw =>
                  if wltb c dw then
-                   {| f_src := f_src f; f_dist := set_nth (f_dist f) w (Some c);
-                      f_pred := set_nth (f_pred f) w (Some (p, e)); f_heap := f_heap f |}
-                 else f
-             | None => f
+                   let d' := set_nth (f_dist f) w (Some c) in
+                   match heap_update (option W) klt (fkey d') (f_heap f) w with
+                   | Some h' => Some {| f_src := f_src f; f_dist := d';
+                                        f_pred := set_nth (f_pred f) w (Some (p, e)); f_heap := h' |}
+                   | None => None
+                   end
+                 else Some f
+             | None => None
              end
          end.
 
-  (* keys of the heap entries; minimum key; the tied minimal entries *)
-  Fixpoint min_key (f : frontier) (h : list nat) (best : option W) : option W :=
-    match h with
-    | [] => best
-    | u :: r =>
-        match fr_dist f u, best with
-        | Some d, Some b => min_key f r (if wltb d b then Some d else Some b)
-        | Some d, None => min_key f r (Some d)
-        | None, _ => min_key f r best
-        end
-    end.
-  Definition find_min (f : frontier) : option W := min_key f (f_heap f) None.
+  (* find_min(): key of queue.top() *)
+  Definition find_min (f : frontier) : option W :=
+    match heap_top (f_heap f) with Some u => fr_dist f u | None => None end.
 
-  Definition is_min (f : frontier) (m : W) (u : nat) : bool :=
-    match fr_dist f u with Some d => negb (wltb m d) | None => false end.   (* d <= m, m is the minimum *)
-
-  Fixpoint remove_first (x : nat) (l : list nat) : list nat :=
-    match l with [] => [] | y :: r => if Nat.eqb x y then r else y :: remove_first x r end.
-
-  (* queue.top() + queue.pop() *)
+  (* poll(): queue.top() + queue.pop() *)
   Definition fr_poll (f : frontier) : option (nat * frontier) :=
-    match find_min f with
+    match heap_top (f_heap f) with
     | None => None
-    | Some m =>
-        let tied := filter (is_min f m) (f_heap f) in
-        match nth_error tied (Nat.modulo (choose tied) (length tied)) with
-        | None => None
-        | Some u => Some (u, {| f_src := f_src f; f_dist := f_dist f; f_pred := f_pred f;
-                                f_heap := remove_first u (f_heap f) |})
-        end
+    | Some u => Some (u, {| f_src := f_src f; f_dist := f_dist f; f_pred := f_pred f;
+                            f_heap := heap_pop (option W) klt (fkey (f_dist f)) (f_heap f) |})
     end.
 
   (* ---- bidirectional_signed_dijkstra ---------------------------------------------------- *)
@@ -100,34 +91,41 @@ Section Signed.
   Definition below_limit (P : sparams) (c : W) : bool :=
     match sp_limit P with None => true | Some l => wltb c l end.
 
-  (* body of the edge loop of one frontier scan; state = (frontier, best) with
-     best = Some (best_path, best_path_common_vertex) *)
+  (* body of the edge loop of one frontier scan; state = Some (frontier, best) with
+     best = Some (best_path, best_path_common_vertex); None = broken invariant (see fr_update) *)
   Definition scan_edge (P : sparams) (other : frontier) (su : nat) (du : W)
-             (st : frontier * option (W * nat)) (ew : nat * nat) : frontier * option (W * nat) :=
-    let '(fr, best) := st in
-    let '(e, w) := ew in
-    let n := nv (sp_g P) in
-    let u := vertex_of n su in
-    if sp_use_hidden P && memb e (sp_hidden P) then st
-    else if Nat.eqb w u then st
-    else
-      let c := wadd du (wtof (sp_wts P) e) in
-      if negb (below_limit P c) then st
-      else
-        let is_signed := memb e (sp_signed P) in
-        let sw := signed_id n w (if is_signed then negb (sign_of n su) else sign_of n su) in
-        let fr' := fr_update fr sw c su e in
-        if has_finite_dist other sw then
-          match fr_dist other sw with
-          | Some dw =>
-              let pd := wadd c dw in
-              match best with
-              | Some (bp, _) => if wltb pd bp then (fr', Some (pd, sw)) else (fr', best)
-              | None => (fr', Some (pd, sw))
-              end
-          | None => (fr', best)
-          end
-        else (fr', best).
+             (st : option (frontier * option (W * nat))) (ew : nat * nat)
+    : option (frontier * option (W * nat)) :=
+    match st with
+    | None => None
+    | Some (fr, best) =>
+        let '(e, w) := ew in
+        let n := nv (sp_g P) in
+        let u := vertex_of n su in
+        if sp_use_hidden P && memb e (sp_hidden P) then st
+        else if Nat.eqb w u then st
+        else
+          let c := wadd du (wtof (sp_wts P) e) in
+          if negb (below_limit P c) then st
+          else
+            let is_signed := memb e (sp_signed P) in
+            let sw := signed_id n w (if is_signed then negb (sign_of n su) else sign_of n su) in
+            match fr_update fr sw c su e with
+            | None => None
+            | Some fr' =>
+                if has_finite_dist other sw then
+                  match fr_dist other sw with
+                  | Some dw =>
+                      let pd := wadd c dw in
+                      match best with
+                      | Some (bp, _) => if wltb pd bp then Some (fr', Some (pd, sw)) else Some (fr', best)
+                      | None => Some (fr', Some (pd, sw))
+                      end
+                  | None => None
+                  end
+                else Some (fr', best)
+            end
+    end.
 
   Inductive loop_result :=
   | LoopDone (fr other : frontier) (best : option (W * nat))    (* left the loop by `break` *)
@@ -157,10 +155,11 @@ Section Signed.
                   | Some du =>
                       if negb (below_limit P du) then LoopLimit
                       else
-                        let '(fr2, best') :=
-                          fold_left (scan_edge P other su du)
-                                    (out_edges (sp_g P) (vertex_of (nv (sp_g P)) su)) (fr1, best) in
-                        bidir_loop fuel' P other fr2 best'          (* swap frontiers *)
+                        match fold_left (scan_edge P other su du)
+                                        (out_edges (sp_g P) (vertex_of (nv (sp_g P)) su)) (Some (fr1, best)) with
+                        | None => LoopBroken
+                        | Some (fr2, best') => bidir_loop fuel' P other fr2 best'      (* swap frontiers *)
+                        end
                   end
               end
         end
@@ -271,63 +270,24 @@ Section Signed.
     end.
   Definition sort_eord (l : list nat) : list nat := fold_right insert_eord [] l.
 
-  (* the sparsest-support heuristic: scan r = k+1 .. csd-1 with the early exit `size < 5` *)
-  Fixpoint min_support (sup : list vec) (cur : nat) (rs : list nat) : nat :=
-    match rs with
-    | [] => cur
-    | r :: rs' =>
-        let cur' := if Nat.ltb (length (nth r sup [])) (length (nth cur sup [])) then r else cur in
-        if Nat.ltb (length (nth cur' sup [])) 5 then cur' else min_support sup cur' rs'
+  (* one phase of mcb_sva_signed: the shortest odd cycle for the witness S (index coordinates) *)
+  Definition signed_phase (g : graph) (wts : list W) (fi : forest_index) (k : nat) (S : vec)
+    : phase_result W :=
+    let signed := indices_to_edges fi S in
+    let res :=
+      if Nat.leb (nv g) (length signed)
+      then all_vertices g wts signed (seq 0 (nv g)) None
+      else hidden_edges g wts signed (sort_eord signed) None in
+    match res with
+    | None => PError
+    | Some None => PNone
+    | Some (Some (c, w)) => PFound c w
     end.
 
-  Definition swap_nth (sup : list vec) (a b : nat) : list vec :=
-    let x := nth a sup [] in let y := nth b sup [] in set_nth (set_nth sup a y) b x.
-
-  (* support[l] += support[k] for every l > k with support[l] * cyclek == 1 *)
-  Definition update_supports (sup : list vec) (k : nat) (cyclek : vec) : list vec :=
-    let Sk := nth k sup [] in
-    map (fun lS => if Nat.ltb k (fst lS) && vdot (snd lS) cyclek then vadd (snd lS) Sk else snd lS)
-        (combine (seq 0 (length sup)) sup).
-
-  Inductive sva_result :=
-  | SvaOk (cycles : list (list nat)) (weight : W)
-  | SvaNoIndex                    (* ForestIndex failed (never on simple graphs) *)
-  | SvaNoCycle (k : nat)          (* assert(std::get<2>(best)) would fail in phase k *)
-  | SvaError (k : nat).           (* fuel / broken invariant in a search *)
-
-  Definition edges_to_indices (fi : forest_index) (c : list nat) : vec :=
-    set_of_list (map (fun e => nth e (fi_idx fi) 0) c).
-  Definition indices_to_edges (fi : forest_index) (s : vec) : list nat :=
-    map (fun i => nth i (fi_rev fi) 0) s.
-
-  Fixpoint sva_phases (g : graph) (wts : list W) (fi : forest_index) (ks : list nat) (sup : list vec)
-           (acc : list (list nat)) (total : W) : sva_result :=
-    match ks with
-    | [] => SvaOk (rev acc) total
-    | k :: ks' =>
-        let csd := fi_csd fi in
-        let ms := min_support sup k (seq (S k) (csd - S k)) in
-        let S1 := if Nat.eqb ms k then sup else swap_nth sup k ms in
-        let signed := indices_to_edges fi (nth k S1 []) in
-        let res :=
-          if Nat.leb (nv g) (length signed)
-          then all_vertices g wts signed (seq 0 (nv g)) None
-          else hidden_edges g wts signed (sort_eord signed) None in
-        match res with
-        | None => SvaError k
-        | Some None => SvaNoCycle k
-        | Some (Some (c, w)) =>
-            let cyclek := edges_to_indices fi c in
-            sva_phases g wts fi ks' (update_supports S1 k cyclek) (c :: acc) (wadd total w)
-        end
-    end.
-
-  Definition mcb_sva_signed (g : graph) (wts : list W) (roots : list nat) : sva_result :=
+  Definition mcb_sva_signed (g : graph) (wts : list W) (roots : list nat) : sva_result W :=
     match create_index g roots with
     | None => SvaNoIndex
-    | Some fi =>
-        let csd := fi_csd fi in
-        sva_phases g wts fi (seq 0 csd) (map (fun i => [i]) (seq 0 csd)) [] w0
+    | Some fi => sva_run W w0 wadd (select_min_support (fi_csd fi)) (signed_phase g wts fi) fi
     end.
 
 End Signed.
